@@ -239,7 +239,7 @@ JudgeOut judge(const json &plan)
 	add_exec_counters(out, r);
 	out.distinct.push_back(plan_fingerprint(plan));
 	death_and_stdout(r, "", out.viol);
-	out.viol.erase(std::remove_if(out.viol.begin(), out.viol.end(), [](const Violation &v) { return v.cls.compare(0, 7, "stdout:") == 0; }), out.viol.end());
+	out.viol.erase(std::remove_if(out.viol.begin(), out.viol.end(), [](const Violation &v) { return v.cls.compare(0, 7, "stdout:") == 0 || v.cls.compare(0, 6, "stdin:") == 0; }), out.viol.end());
 	if (r.died)
 		return out;
 	Model M(plan);
